@@ -101,7 +101,8 @@ def floors(tier):
          "sets.expr.renderings": 7, "oracle.expr.literal-spelling": 400, "sets.expr.literal_spellings": 6,
          "counters.plural.leading-zeros": 100, "sets.str.fns": 15, "sets.locales": 96, "sets.locale_settings": 8,
          "oracle.formatnum.forward": 96 * 84, "oracle.formatnum.reverse": 96 * 84, "oracle.formatnum.roundtrip": 96 * 84,
-         "oracle.plural": 500, "counters.plural.n=1": 50, "counters.grid.parts_completed": NSH,
+         "oracle.plural": 500, "counters.plural.n=1": 50, "counters.grid.parts_completed": NSH, "counters.formatnum.cross-locale": NSH * 2 * 7 * 5,
+         "sets.fmt.cross_locales": 5,
          "anchors.expr_fn": 20000, "anchors.expr_fn.generic_binary": 20000, "anchors.expr_fn.parse_unary_fn": 20000,
          "anchors.formatnum_fn": 96 * 84, "anchors._formatnum_reverse": 96 * 84, "anchors.plural_fn": 500,
          "nontrivial": 20000}
@@ -988,6 +989,11 @@ def fmt_case(mon, obs, lang, loc, n):
                           {"family": "formatnum", "lang": lang, "n": n})
 
 
+# locales with pairwise different decimal mark / separator / grouping: en ", ." | de ". ," | fr nbsp | hi 3-2 | bg "" | el []
+CROSS_LOCALES = ["en", "de", "fr", "hi", "bg", "el", "ru"]
+CROSS_NUMERALS = ["1234567.891", "44.0", "0.5", "1234", "987654321", "12345.67", "7"]
+
+
 def numeral(rng, il, fl):
     r = rng.random()
     if il > 1 and r < 0.08:
@@ -1062,6 +1068,18 @@ def run_shard(spec):
             for fl in range(0, 7):
                 for _ in range(p["fmt_per_cell"]):
                     fmt_case(m, obs, lang, loc, numeral(rng, il, fl))
+        m.close()
+    # ---- formatnum: the SAME numerals under locales with different separators, one after the other in one process and
+    # in both orders (a result must depend on the context's locale, not on what another context formatted before)
+    byname = dict(locs)
+    order = [l for l in CROSS_LOCALES if l in byname]
+    for lang in order + order[::-1]:
+        m = Mon(obs, lang=lang)
+        m.idx, m.sampled = idx, mon.sampled
+        obs.add("fmt.cross_locales", lang)
+        for n in CROSS_NUMERALS:
+            fmt_case(m, obs, lang, byname[lang], n)
+            obs.count("formatnum.cross-locale")
         m.close()
     obs.anchors.update(anchors.snapshot())
     return obs
